@@ -85,20 +85,28 @@ def m_open(I, fn, n, args, st):
     flags_node = n["c"][2] if len(n["c"]) > 2 else None
     cloexec = None
     if flags_node is not None:
-        cloexec = or_contains_const(flags_node, 0o2000000)
+        cloexec = or_contains_const(flags_node, 0o2000000, fn)
     s, t = new_fd(I, fn, n, st, 0, bool(cloexec), "file")
     ev(I, "fd-create", fn, n, ("open", t, cloexec), s)
     return [(failed(st, fn, n), fs(-1)), (s, fs(t))]
 
 
-def or_contains_const(node, value):
-    """does the `|` tree of node contain a constant operand with all bits of `value`"""
+def or_contains_const(node, value, fn=None, depth=0):
+    """does the `|` tree of node contain a constant operand with all bits of `value`?  A local with a single definition (its
+    initialiser, never written again) stands for that initialiser when the function is given."""
     from .facts import strip
     node = strip(node)
     if "val" in node and is_int(node["val"]):
         return (node["val"] & value) == value
     if node["k"] == "BinaryOperator" and node["op"] == "|":
-        return any(or_contains_const(c, value) for c in node["c"])
+        return any(or_contains_const(c, value, fn, depth) for c in node["c"])
+    if fn is not None and depth < 4 and node["k"] == "DeclRefExpr" and node.get("dk") == "local":
+        decls = [x for x in fn.nodes.values() if x["k"] == "VarDecl" and x.get("did") == node.get("did") and x.get("c")]
+        writes = [x for x in fn.nodes.values() if (x["k"] in ("BinaryOperator", "CompoundAssignOperator") and x.get("op", "").endswith("=")
+                                                   and x["op"] not in ("==", "!=", "<=", ">=") or x["k"] == "UnaryOperator" and x.get("op") in ("++", "--"))
+                  and strip(x["c"][0])["k"] == "DeclRefExpr" and strip(x["c"][0]).get("did") == node.get("did")]
+        if len(decls) == 1 and not writes:
+            return or_contains_const(decls[0]["c"][0], value, fn, depth + 1)
     return False
 
 
